@@ -286,3 +286,49 @@ func TestReplay_ScopeClosedDuringItsOwnCreation(t *testing.T) {
 		t.Errorf("REPLAY-CONFIRMED provider.CreateScope#post[a_scope_closed_during_its_creation_is_not_tracked]: %d closed scopes are still in the provider's table after 21 create/close cycles whose initializer closes the scope", n)
 	}
 }
+
+type rpPanicky struct{ *rpDisp }
+
+func (p *rpPanicky) Close() error { panic("close exploded") }
+
+// scope.Close#nopanic[no_panic_escapes] / provider.Close#nopanic[no_panic_escapes]: a Disposable whose Close panics must not stop the
+// remaining instances from being closed, nor leave the scope tracked.
+func TestReplay_PanickingCloseDoesNotAbortDisposal(t *testing.T) {
+	for _, what := range []string{"scope", "provider"} {
+		c := NewCollection()
+		first := &rpA{&rpDisp{name: "first"}}
+		if what == "scope" {
+			c.AddScoped(func() *rpA { return first })
+			c.AddScoped(func(*rpA) *rpPanicky { return &rpPanicky{&rpDisp{name: "panicky"}} })
+		} else {
+			c.AddSingleton(func() *rpA { return first })
+			c.AddSingleton(func(*rpA) *rpPanicky { return &rpPanicky{&rpDisp{name: "panicky"}} })
+		}
+		pv, err := c.Build()
+		if err != nil {
+			t.Fatal(err)
+		}
+		sc, _ := pv.CreateScope(context.Background())
+		if _, err := Resolve[*rpPanicky](sc); err != nil {
+			t.Fatal(err)
+		}
+		var cerr error
+		escaped := false
+		func() {
+			defer func() {
+				if r := recover(); r != nil {
+					escaped = true
+				}
+			}()
+			if what == "scope" {
+				cerr = sc.Close()
+			} else {
+				cerr = pv.Close()
+			}
+		}()
+		func() { defer func() { recover() }(); sc.Close(); pv.Close() }()
+		if escaped || atomic.LoadInt32(&first.closed) != 1 || cerr == nil {
+			t.Errorf("REPLAY-CONFIRMED %s.Close#nopanic[no_panic_escapes]: a disposable whose Close panics: panic escaped Close=%v, the instance created before it was closed %d times (want 1), Close returned %v (want a disposal error)", what, escaped, atomic.LoadInt32(&first.closed), cerr)
+		}
+	}
+}
